@@ -264,6 +264,10 @@ def main():
         if hasattr(mod, "explain_broken"):
             mod.explain_broken(ctx, name, why)
         ctx.unproved(name, why)
+    if any(f for _, f in ctx.violations):
+        # a concrete failing input was found: that is the report (DESIGN.md §2.1)
+        ctx.cov["unproved_also_seen"] = [p for p, f in ctx.violations if not f]
+        ctx.violations = [(p, f) for p, f in ctx.violations if f]
     write_evidence(ctx, mod, ev_path)
     for k in ctx.known_hits:
         print(f"KNOWN-FINDING: property={pid} {k['what']}")
